@@ -13,6 +13,7 @@ Refinement of the declarative binding specification (`Spec.Bind.specBind`) by th
    `Spec.Bind.jsonValue` outside `json-prebind-extra`
 6. one field (`FieldWF`, `noText_base/_slice`, `scalar_refines`, `slice_refines`)
 7. field lists (`runDecoders_refines`, `bind_refines`)
+8. the tag-restricted entry points: `bindBy (some s)` = `specFieldsBy s` for every field list (`bindBy_refines`)
 
 Only Lean core is used.
 -/
@@ -1248,5 +1249,85 @@ theorem bind_refines (fields : List Field) (r : Req) (hwf : ∀ f ∈ fields, Fi
 theorem class_empty_of {f : Field} {r : Req} (h1 : clsSonicU32 f r = false) (h2 : clsDashOnly f = false)
     (h3 : clsJsonDash f = false) (h4 : clsPrebindExtra f r = false) : fieldClass f r = "" := by
   simp [fieldClass, h1, h2, h3, h4]
+
+/-! ## 8. the tag-restricted entry points (`BindPath`/`BindForm`/`BindQuery`/`BindHeader`) against `specFieldsBy` -/
+
+/-- `getFieldTagInfoByTag` yields one tag, read as the specification reads the struct tag of that source -/
+theorem tagInfoByTag_spec (f : Field) (s : Src) :
+    ∃ t, tagInfoByTag f s = [t] ∧ t.key = s ∧ t.dflt = [] ∧
+      namedBy f s = (if t.skip then none else some (t.value, t.required)) := by
+  unfold tagInfoByTag namedBy
+  cases hl : f.tags.lookup s with
+  | none => exact ⟨_, rfl, rfl, rfl, by simp⟩
+  | some c =>
+    obtain ⟨tl, h1, h2⟩ := splitComma_head c []
+    simp only [List.reverse_nil, List.nil_append] at h1
+    refine ⟨_, rfl, rfl, rfl, ?_⟩
+    simp only [h1, h2, List.isEmpty_iff]
+
+theorem fieldBy_refines (f : Field) (r : Req) (s : Src) (hs : s ≠ .json) :
+    (compileFieldBy (some s) f).run r .unset = specFieldBy s f r := by
+  obtain ⟨t, ht, hk, hd, hn⟩ := tagInfoByTag_spec f s
+  unfold specFieldBy
+  simp only [compileFieldBy, FieldDec.run, ht]
+  subst hk
+  have hkj : ¬ t.key = .json := hs
+  cases hsl : f.ty.slice
+  · -- scalar
+    simp only [Bool.false_eq_true, if_false]
+    unfold decodeBase
+    cases hsk : t.skip
+    · simp only [hsk, Bool.false_eq_true, if_false] at hn
+      simp only [hn, baseLoop, hsk, hkj, Bool.false_eq_true, false_or, if_false, getter_eq]
+      cases hp : present r t.key t.value with
+      | none =>
+        simp only [asPair, Bool.false_eq_true, if_false, hd]
+        cases t.required <;> simp
+      | some v =>
+        simp only [asPair, if_true, hd]
+        simp only [textOutcome, ne_eq, not_true_eq_false, and_false, if_false, Bool.not_true, Bool.false_eq_true, false_and]
+        cases convText f.ty.base v <;> rfl
+    · simp only [hsk, if_true] at hn
+      simp [hn, baseLoop, hsk, hkj]
+  · simp only [if_true]
+    unfold decodeSlice
+    cases hsk : t.skip
+    · simp only [hsk, Bool.false_eq_true, if_false] at hn
+      simp only [hn, sliceLoop, hsk, hkj, Bool.false_eq_true, false_or, if_false, sliceGetter_eq]
+      cases hp : presentAll r t.key t.value with
+      | nil =>
+        simp only [ne_eq, not_true_eq_false, if_false, hd]
+        cases t.required <;> simp
+      | cons t0 ts =>
+        simp only [textsOutcome, hd, ne_eq, not_true_eq_false, and_false, if_false, reduceCtorEq, not_false_eq_true, if_true]
+        cases convAll f.ty.base (t0 :: ts) <;> rfl
+    · simp only [hsk, if_true] at hn
+      simp [hn, sliceLoop, hsk, hkj]
+
+theorem runDecodersBy_refines (r : Req) (s : Src) (hs : s ≠ .json) : ∀ (fields : List Field) (pres : List FieldVal),
+    (∀ p ∈ pres, p = .unset) →
+    runDecoders r (compileBy (some s) fields) pres = specFieldsBy s r fields
+  | [], _, _ => rfl
+  | f :: fs, pres, hp => by
+    have hh : pres.headD .unset = .unset := by
+      cases pres with
+      | nil => rfl
+      | cons p ps => exact hp p List.mem_cons_self
+    have ht : ∀ p ∈ pres.tail, p = .unset := fun p h => hp p (List.mem_of_mem_tail h)
+    simp only [compileBy, List.map_cons, runDecoders, specFieldsBy, hh, fieldBy_refines f r s hs]
+    have ih := runDecodersBy_refines r s hs fs pres.tail ht
+    simp only [compileBy] at ih
+    rw [ih]
+    cases specFieldBy s f r with
+    | err e => rfl
+    | unk => rfl
+    | ok v => cases specFieldsBy s r fs <;> rfl
+
+/-- **Tag-restricted entry points.** For every type and request, `BindPath` / `BindForm` / `BindQuery` /
+`BindHeader` compute what their one-source specification says (no hypothesis on the fields). -/
+theorem bindBy_refines (s : Src) (hs : s ≠ .json) (fields : List Field) (r : Req) :
+    bindBy (some s) fields r = specBindBy (some s) fields r := by
+  unfold bindBy bindWithBy specBindBy
+  exact runDecodersBy_refines r s hs fields _ (by intro p hp; simp at hp; exact hp.2.symm)
 
 end Hertz.Bind
